@@ -603,6 +603,13 @@ func (m *Manager) acquireTasks(envId uid.ID, taskDescriptors Descriptors) (err e
 			log.WithField("partition", envId).
 				WithField("level", infologger.IL_Devel).
 				Errorf("Deployment failed %d/%d attempts. Check messages in IL to figure out why. Retrying...", attemptCount+1, MAX_ATTEMPTS_PER_DEPLOY_REQUEST)
+			if attemptCount+1 < MAX_ATTEMPTS_PER_DEPLOY_REQUEST {
+				// the next attempt launches anew: what this one launched goes to the roster, unowned, for the next cleanup
+				for taskPtr := range deployedTasks {
+					taskPtr.SetParent(nil)
+					m.roster.append(taskPtr)
+				}
+			}
 			time.Sleep(time.Second * SLEEP_LENGTH_BETWEEN_PER_DEPLOY_REQUESTS)
 		}
 	}
